@@ -76,15 +76,6 @@ theorem drainHalts_eq_loop {M : Type} (f : Framer M) : ∀ (n : Nat) (b : Bytes)
 theorem eventStep_consumes : Consumes eventStep :=
   extStep_consumes (C02.http_prefixStable C02.requestParams).prog
 
-theorem serverNext_le (b : Bytes) : (serverNext b).length ≤ b.length := by
-  unfold serverNext
-  cases h : C02.httpServer.ext b with
-  | need => simp
-  | err e => simp
-  | msg m r =>
-    have := (C02.http_prefixStable C02.requestParams).prog h
-    simp only; omega
-
 theorem serverStep_consumes : Consumes serverStep := by
   intro b r h
   simp only [serverStep] at h
@@ -95,16 +86,21 @@ theorem serverStep_consumes : Consumes serverStep := by
     · rename_i hne
       cases h
       unfold serverNext at hne ⊢
-      cases h : C02.httpServer.ext b with
-      | need => simp [h] at hne
-      | err e =>
-        simp only
-        cases b with
-        | nil => simp_all
-        | cons c t => simp
-      | msg m r =>
-        have := (C02.http_prefixStable C02.requestParams).prog h
-        simpa using this
+      split
+      · rename_i he
+        simp [he] at hne
+      · rename_i he
+        simp only [he] at hne
+        cases h : C02.httpServer.ext b with
+        | need => simp [h] at hne
+        | err e =>
+          simp only
+          cases b with
+          | nil => simp_all
+          | cons c t => simp
+        | msg m r =>
+          have := (C02.http_prefixStable C02.requestParams).prog h
+          simpa using this
 
 theorem readLoop_length : ∀ (bs : Bytes) (acc cnt n : Nat) (rest : Bytes),
     C04.Varint.readLoop bs acc cnt = some (n, rest) → rest.length < bs.length := by
@@ -133,10 +129,12 @@ theorem protobufsStep_consumes : Consumes protobufsStep := by
       · rename_i len raw hv
         split at h
         · cases h
-        · cases h
-          have := readLoop_length _ _ _ _ _ hv
-          simp only [List.length_drop, List.length_cons] at this ⊢
-          omega
+        · split at h
+          · cases h
+            have := readLoop_length _ _ _ _ _ hv
+            simp only [List.length_drop, List.length_cons] at this ⊢
+            omega
+          · cases h
 
 /-! ### the pinned loops do not leave -/
 
